@@ -602,7 +602,10 @@ func (s *AbsfsNFS) CreateWithContext(ctx context.Context, dir *NFSNode, name str
 	// Invalidate parent directory caches and negative cache entries in the directory
 	s.attrCache.Invalidate(dir.path)
 	s.attrCache.InvalidateNegativeInDir(dir.path)
-	s.attrCache.Invalidate(path) // Also invalidate the specific path in case it was negatively cached
+	// Also drop what is cached for the new name and below it: misses remembered
+	// for paths under a name that did not exist are no longer true once the name
+	// is taken (the path now fails with NOTDIR instead of NOENT).
+	s.attrCache.InvalidateTree(path)
 	if s.dirCache != nil {
 		s.dirCache.Invalidate(dir.path)
 	}
@@ -999,7 +1002,9 @@ func (s *AbsfsNFS) Symlink(dir *NFSNode, name string, target string, attrs *NFSA
 	// Invalidate parent directory caches and negative cache entries in the directory
 	s.attrCache.Invalidate(dir.path)
 	s.attrCache.InvalidateNegativeInDir(dir.path)
-	s.attrCache.Invalidate(path) // Also invalidate the specific path in case it was negatively cached
+	// Also drop what is cached for the new name and below it: a path through the
+	// new link may exist although a miss was remembered for it
+	s.attrCache.InvalidateTree(path)
 	if s.dirCache != nil {
 		s.dirCache.Invalidate(dir.path)
 	}
